@@ -5,6 +5,9 @@
 -/
 import PySpikeVerif.Model.Api
 import PySpikeVerif.Model.Pyx
+import PySpikeVerif.Model.TextIO
+import PySpikeVerif.Spec.Sync
+import PySpikeVerif.Spec.Spike
 open PySpike
 
 def parseQ (s : String) : Option Q :=
@@ -187,6 +190,25 @@ def handle (op : String) (f : List (List Q)) : String :=
   | "pyx_coinc_value", [s1, s2, [ts, te, mt, m]] => let r := coincValuePyx s1 s2 ts te mt m; showFields [[r.1, r.2]]
   | "pyx_order_value", [s1, s2, [ts, te, mt, m]] => let r := orderValuePyx s1 s2 ts te mt m; showFields [[r.1, r.2]]
   | "pyx_dir_value", [s1, s2, [ts, te, mt, m]] => showFields [[dirValuePyx s1 s2 ts te mt m]]
+  -- cursor-free specifications (Spec/Sync.lean), for validating the spec against the model
+  | "round_sci", [[p], xs] => showFields [xs.map (roundSci p.num.toNat)]
+  | "save_load", ([p, ign, ncom] :: trains) =>
+    -- `ncom` comment lines are inserted (before the first and after every second line)
+    let ls := saveLines p.num.toNat trains
+    let withC := if ncom = 0 then ls else Line.comment :: ls.flatMap (fun l => [l, Line.comment])
+    let r := loadLines (toBool ign) withC
+    showFields ([(r.length : Q)] :: r)
+  | "spec_spike", [s1, s2, [ts, te, m, ri]] =>
+    if s1.isEmpty ∨ s2.isEmpty then "reject" else
+    let xs := (isiProfile s1 s2 ts te 0).1
+    let r := spikeSpecProfile s1 s2 ts te m (toBool ri) xs; showFields [xs, r.1, r.2]
+  | "spec_coinc", [s1, s2, [ts, te, mt, m]] =>
+    showFields (unzip3 (frameProfile ts te (scanSpec 1 1 2 s1 s2 (trueMax ts te mt) m)))
+  | "spec_order", [s1, s2, [ts, te, mt, m]] =>
+    showFields (unzip3 (frameProfile ts te (scanSpec (-1) 1 0 s1 s2 (trueMax ts te mt) m)))
+  | "spec_single", [s1, s2, [ts, te, mt, m]] => showFields [singleSpec s1 s2 (trueMax ts te mt) m]
+  | "spec_dir", [s1, s2, [ts, te, mt, m]] =>
+    showFields [dirSpec1 s1 s2 (trueMax ts te mt) m, dirSpec2 s1 s2 (trueMax ts te mt) m]
   | _, _ => handleApi op f
 
 partial def loop (h : IO.FS.Stream) (out : IO.FS.Stream) : IO Unit := do
